@@ -98,11 +98,12 @@ Definition a_mark (n : Z) (s : ast) : ast :=
   {| a_tokens := a_tokens s; a_nonce := n; a_pending := a_pending s; a_osets := a_osets s; a_lastoset := a_lastoset s |}.
 
 Record att_case := {
+  ac_stale : Z; ac_obs_stale : Z;   (* outgoing bridge calls whose timeout lies below the external height the claim reports: before / after *)
   ac_tokens : list Z; ac_osets : list Z; ac_lastoset : Z; ac_nonce : Z;  (* pre; the claim's event nonce is ac_nonce+1 *)
   ac_kind : Z; ac_arg : Z;
   ac_obs_class : Z; ac_obs_nonce : Z; ac_obs_token : bool; ac_obs_pending : bool; ac_obs_lastoset : Z }.
-Definition mk_att_case tokens osets lastoset nonce kind arg ok onon otok opend olast : att_case :=
-  {| ac_tokens := tokens; ac_osets := osets; ac_lastoset := lastoset; ac_nonce := nonce; ac_kind := kind; ac_arg := arg;
+Definition mk_att_case stale ostale tokens osets lastoset nonce kind arg ok onon otok opend olast : att_case :=
+  {| ac_stale := stale; ac_obs_stale := ostale; ac_tokens := tokens; ac_osets := osets; ac_lastoset := lastoset; ac_nonce := nonce; ac_kind := kind; ac_arg := arg;
      ac_obs_class := ok; ac_obs_nonce := onon; ac_obs_token := otok; ac_obs_pending := opend; ac_obs_lastoset := olast |}.
 
 (* kind 4 = MsgSendToExternalClaim for a batch the module does not know: OutgoingTxBatchExecuted panics *)
@@ -111,8 +112,17 @@ Definition a_handler_p (kind arg : Z) (s : ast) : option (result ast) :=
 
 Definition att_mismatch (c : att_case) : bool :=
   let pre := {| a_tokens := ac_tokens c; a_nonce := ac_nonce c; a_pending := []; a_osets := ac_osets c; a_lastoset := ac_lastoset c |} in
-  let (post, cls) := claim_tx ast (a_mark (ac_nonce c + 1)) (fun s => s) (a_handler_p (ac_kind c) (ac_arg c)) (fun s => s) (fun s => s) pre in
-  negb ((cls =? ac_obs_class c)
+  (* state = (handler-visible state, number of timed-out outgoing bridge calls); the clean-ups of TryAttestation remove those *)
+  let lift (h : ast -> option (result ast)) (x : ast * Z) : option (result (ast * Z)) :=
+    match h (fst x) with
+    | None => None
+    | Some (Ok s') => Some (Ok (s', snd x))
+    | Some (Err s') => Some (Err (s', snd x))
+    end in
+  let (postn, cls) := claim_tx (ast * Z) (fun x => (a_mark (ac_nonce c + 1) (fst x), snd x)) (fun x => (fst x, 0))
+                               (lift (a_handler_p (ac_kind c) (ac_arg c))) (fun x => x) (fun x => x) (pre, ac_stale c) in
+  let post := fst postn in
+  negb ((cls =? ac_obs_class c) && (snd postn =? ac_obs_stale c)
         && (a_nonce post =? ac_obs_nonce c)
         && Bool.eqb (if ac_kind c =? 0 then memZ (ac_arg c) (a_tokens post) else false) (ac_obs_token c)
         && Bool.eqb (memZ (ac_nonce c + 1) (a_pending post)) (ac_obs_pending c)
@@ -161,3 +171,13 @@ Definition recv_mismatch (c : recv_case) : bool :=
   let stage (ok : bool) (s : Z) : result Z := if ok then Ok (s + 1) else Err (s + 1) in
   let (post, ok) := core_recv Z (rc_parse_ok c) (stage (rc_transfer_ok c)) (stage (rc_hook_ok c)) (fun s => s) (fun _ s => s) 0 in
   negb (Bool.eqb ok (rc_obs_ack c) && Bool.eqb (negb (post =? 0)) (rc_obs_changed c)).
+
+(* ---------------- SendToFx claim forwarded over IBC (no tolerated failure) ---------------- *)
+
+(* state = number of application writes; stage that fails: 0 none, 1 deposit, 2 conversion to the voucher, 3 the ICS-20 transfer *)
+Record stf_case := { sc_fail_at : Z; sc_obs_ok : bool; sc_obs_changed : bool }.
+Definition mk_stf_case f ok ch : stf_case := {| sc_fail_at := f; sc_obs_ok := ok; sc_obs_changed := ch |}.
+Definition stf_mismatch (c : stf_case) : bool :=
+  let stage (n : Z) (s : Z) : result Z := if sc_fail_at c =? n then Err (s + 1) else Ok (s + 1) in
+  let (post, ok) := send_to_fx_ibc_tx Z (fun s => s + 1) (stage 1) (stage 2) (stage 3) 0 in
+  negb (Bool.eqb ok (sc_obs_ok c) && Bool.eqb (negb (post =? 0)) (sc_obs_changed c)).
